@@ -13,6 +13,10 @@ add("C04","E1 enum (+E2 closure for Checked)","exploration",
     "Every add/sub/neg form (213 forms: Limb, Uint<1..12,16,32>, BoxedUint with independent receiver/rhs precision, Uint<N> and u8..u128 right-hand sides, Wrapping, Checked) is applied to the complete product of the operand generators and every carry-in in {0,1,2,MAX}; word primitives over L13^4; each outcome (value, carry, none, panic) compared with exact integer arithmetic. Checked<T> stickiness is closed over all operation histories of depth 4/5.",
     ASSUME, "bounded-exhaustive enumeration of operand shapes x forms on the real code against a BigUint reference model; explicit enumeration of all Checked<T> operation histories to depth 4/5", "DESIGN.md §3.C04")
 
+add("C03","E1 enum","exploration",
+    "Every multiplication/squaring form (split, widening, wrapping, checked, saturating, operators by value/ref/assign, Wrapping, Checked; Uint<1..12,16,32,64,128> equal and mixed widths; BoxedUint 1..=140 limbs incl. unequal lengths around the Karatsuba thresholds) applied to the complete product of operand generators whose run boundaries include every half/quarter point of every Karatsuba level; compared with the exact BigUint product; an oracle-side classifier counts the (level, sign-case) pairs reached.",
+    ASSUME, "bounded-exhaustive enumeration of operand shapes x forms on the real code against a BigUint reference model", "DESIGN.md §3.C03")
+
 NOT_YET = {}
 ALL = [f"C{i:02d}" for i in range(1,21)]
 import os, sys
